@@ -1,6 +1,8 @@
 """Which units / harnesses decide which property, and what each leaves uncovered."""
 PROPS = {
     "C08": {
+        "claim": "Proof, for every bound 2^k and every list length below it: Verus discharges the postcondition of the real compile::list_fold (with next_f_array, next_f_fold and the named.rs builders it calls, all cut verbatim from /repo/src on every run) stating that the built Simplicity term evaluates, on (list_val(es, bound), init), to the left fold f(e_k, .. f(e_1, init)) in list order with the accumulator threaded, and fails exactly when an application of f fails. list_val is the documented List layout shared with C07. A proof is the right level because the statement quantifies over all bounds and lengths and the function is a loop building ever larger terms.",
+        "note": "Assumed: the Simplicity combinator algebra (each node constructor builds the term it is named after; eval transcribes the Bit Machine), std/vstd specs, derive semantics, Borrow reflexivity. Every postcondition is conditional on the type-inference-dependent builders returning Ok. Not covered: the fold call site in Call::compile, ast signature checks. Bodies of CoreExt::{unit_scribe,assert*,case_*} and PairBuilder::pair are assumed (their unwrap depends on typing).",
         "units": ["fold"],
         "scope": [r"^fold/"],
         "level": "proof",
@@ -9,6 +11,8 @@ PROPS = {
                         "type inference: every postcondition is conditional on the builders returning Ok"],
     },
     "C11": {
+        "claim": "Proof for every decimal string of any length: the real U256::from_str is proved to return Ok exactly for non-empty all-digit strings whose mathematical value is below 2^256 and to return that value (big-endian bytes), including the 78-digit early exit and the carry loop; no sampling bound.",
+        "note": "Assumed: vstd model of str::chars / Chars::next, specs of trim_start_matches('0'), Chars::count, char::to_digit(10). Rule R3 rewrites the iter_mut().rev() loop into an index loop (validated in the thorough tier). Not covered yet: the other literal parsers (value.rs), ast passing the right type, the pest literal rules.",
         "units": ["num"],
         "scope": [r"^num/FromStr for U256", r"^num/lemma_", r"^literal/"],
         "level": "proof",
